@@ -416,6 +416,14 @@ Proof.
   - destruct (inv_get_or_create_leader _ H) as (Hi & Hrl & _). eapply inv_leader_become; eassumption.
   - destruct (n_role n) eqn:Hr; try (inversion Hs; subst; assumption). eapply inv_leader_write; eassumption.
   - destruct (n_role n) eqn:Hr; try (inversion Hs; subst; assumption). eapply inv_leader_sync_done; eassumption.
+  - (* DeleteShardReq *)
+    assert (Hclean : inv (mkN (dterm n) (n_wal n) (length (n_wal n)) (n_commit n) RNone (status_of_term (dterm n))
+                              (-1) 0 None [] false None (n_gen n) [] false (n_commit n))).
+    { break_inv H. inv7; fin. }
+    assert (Hwiped : inv (mkN (-1) [] O (-1) RNone NotMember (-1) 0 None [] false None (n_gen n) [] false (-1))).
+    { inv7; fin. }
+    destruct (t <? match n_role n with RNone => dterm n | _ => n_term n end); [|inversion Hs; subst; exact Hwiped].
+    destruct (n_role n); inversion Hs; subst; assumption.
 Qed.
 
 Lemma run_cons : forall c n a l, run c n (a :: l) =
@@ -492,7 +500,8 @@ Qed.
 (* the term an action carries: the one in the request (for an Append: the term of the stream / request) *)
 Definition act_term (n : node) (a : action) : option Z :=
   match a with
-  | NewTermReq t | TruncateReq t _ | ReplicateOpen _ t | SnapshotInstall _ t _ _ | BecomeLeaderReq t => Some t
+  | NewTermReq t | TruncateReq t _ | ReplicateOpen _ t | SnapshotInstall _ t _ _ | BecomeLeaderReq t
+  | DeleteShardReq t => Some t
   | FollowerAppend sid _ _ => match find_stream n sid with Some s => Some (s_term s) | None => None end
   | _ => None
   end.
@@ -618,6 +627,12 @@ Proof.
     apply complete_writes_pres in Hc. unfold same_but_trk_commit in Hc. cbn in Hc.
     destruct Hc as (Ht & Hw & Hsy' & Hro & Hst & _).
     inversion Hs; subst n' o. cbn. rewrite Ht, Hw, Hsy', Hst. repeat split; auto.
+  - (* DeleteShardReq of a term < T <= the node's term: refused *)
+    assert (Hd : dterm n = n_term n) by (unfold dterm; rewrite Htl0; reflexivity).
+    destruct (t <? match n_role n with RNone => dterm n | _ => n_term n end) eqn:E.
+    + destruct (n_role n); inversion Hs; subst n' o; cbn; rewrite ?Hd; repeat split; auto;
+        destruct Hsot as [Hx|Hx]; rewrite Hx; discriminate.
+    + exfalso. bools. destruct (n_role n); rewrite ?Hd in E; lia.
 Qed.
 
 Fixpoint low_run (T : Z) (n : node) (l : list action) : Prop :=
@@ -650,10 +665,14 @@ Proof.
 Qed.
 
 (* ------------------------------------------------------------------ C04: progress only on behalf of the current term *)
-Lemma step_term_mono : forall n a n' o, inv n -> wf_action a -> step cfg_fixed n a = (n', o) ->
+(* an accepted DeleteShard (term >= the node's) removes the shard, term included: the clauses below are for schedules
+   in which the shard is kept *)
+Definition keeps_shard (a : action) : Prop := match a with DeleteShardReq _ => False | _ => True end.
+
+Lemma step_term_mono : forall n a n' o, inv n -> wf_action a -> keeps_shard a -> step cfg_fixed n a = (n', o) ->
   n_term n <= n_term n'.
 Proof.
-  intros n a n' o H Hwf Hs. pose proof (termlost_inv _ H) as Htl0. destruct a; cbn [step] in Hs.
+  intros n a n' o H Hwf Hks Hs. pose proof (termlost_inv _ H) as Htl0. destruct a; cbn [step] in Hs.
   - destruct (n_role n) eqn:Hro.
     + unfold leader_new_term in Hs. destruct (gocl_facts n Htl0) as (Hm1 & _). remember (get_or_create_leader n) as m.
       destruct (t <? n_term m) eqn:E; [inversion Hs; subst; lia|]. bools.
@@ -689,15 +708,31 @@ Proof.
   - destruct (n_role n); try (inversion Hs; subst; lia).
     unfold leader_sync_done in Hs. destruct (complete_writes _ _ _) as [m r] eqn:Hc.
     apply complete_writes_pres in Hc. destruct Hc as (Ht & _). cbn in Ht. inversion Hs; subst n' o. cbn. lia.
+  - contradiction.
 Qed.
 
-Lemma run_term_mono : forall l n, inv n -> Forall wf_action l -> n_term n <= n_term (state_after cfg_fixed n l).
+Lemma run_term_mono : forall l n, inv n -> Forall wf_action l -> Forall keeps_shard l ->
+  n_term n <= n_term (state_after cfg_fixed n l).
 Proof.
-  induction l as [|a l IH]; intros n H Hwf; [cbn; lia|].
-  rewrite state_after_cons. inversion Hwf as [|? ? Hwa Hwl]; subst.
+  induction l as [|a l IH]; intros n H Hwf Hks; [cbn; lia|].
+  rewrite state_after_cons. inversion Hwf as [|? ? Hwa Hwl]; subst. inversion Hks as [|? ? Hka Hkl]; subst.
   destruct (step cfg_fixed n a) as [n1 o] eqn:Hs. cbn [fst].
-  pose proof (step_term_mono _ _ _ _ H Hwa Hs). pose proof (step_inv _ _ _ _ H Hwa Hs) as Hi.
-  specialize (IH n1 Hi Hwl). lia.
+  pose proof (step_term_mono _ _ _ _ H Hwa Hka Hs). pose proof (step_inv _ _ _ _ H Hwa Hs) as Hi.
+  specialize (IH n1 Hi Hwl Hkl). lia.
+Qed.
+
+(* DeleteShard of a term older than the node's (the stored one when no controller is loaded) is refused in every residency
+   state, and term, log and commit offset stay as they are. *)
+Lemma delete_shard_older_term_refused : forall c n t, inv n -> t < n_term n ->
+  o_res (snd (step c n (DeleteShardReq t))) = RErr EInvalidTerm /\
+  n_term (fst (step c n (DeleteShardReq t))) = n_term n /\
+  n_wal (fst (step c n (DeleteShardReq t))) = n_wal n /\
+  n_commit (fst (step c n (DeleteShardReq t))) = n_commit n.
+Proof.
+  intros c n t H Ht. pose proof (dterm_inv _ H) as Hd. cbn [step].
+  replace (t <? match n_role n with RNone => dterm n | _ => n_term n end) with true
+    by (symmetry; apply Z.ltb_lt; destruct (n_role n); rewrite ?Hd; lia).
+  destruct (n_role n); cbn; rewrite ?Hd; repeat split; reflexivity.
 Qed.
 
 (* every Ack is sent on a stream whose announced term (if it announces one) is the node's current term *)
@@ -744,6 +779,7 @@ Proof.
     unfold leader_write in Hs. dm Hs; inversion Hs; subst n' o; cbn in Hin; contradiction.
   - destruct (n_role n); try (inversion Hs; subst; contradiction).
     unfold leader_sync_done in Hs. destruct (complete_writes _ _ _). inversion Hs; subst n' o; cbn in Hin; contradiction.
+  - dm Hs; inversion Hs; subst n' o; cbn in Hin; contradiction.
 Qed.
 
 Lemma firstn_length_le : forall (A : Type) k (l : list A), (length (firstn k l) <= length l)%nat.
@@ -821,6 +857,7 @@ Proof.
     unfold leader_sync_done in Hs. destruct (complete_writes _ _ _) as [m r] eqn:Hc.
     apply complete_writes_pres in Hc. destruct Hc as (_ & Hw & _). cbn in Hw.
     inversion Hs; subst n' o. cbn in Hlen. rewrite Hw in Hlen. exfalso; lia.
+  - dm Hs; inversion Hs; subst n' o; cbn in Hlen; exfalso; lia.
 Qed.
 
 (* a client write is reported successful only for an entry of the node's current term *)
@@ -867,6 +904,7 @@ Proof.
     apply (complete_writes_true _ _ _ _ _ off Hc) in Hin. destruct Hin as [[]|[Hp Hn]]. cbn in Hp, Hn.
     break_inv H. destruct (Hpend _ _ Hp) as [_ Hex]. destruct (Hex eq_refl Hn) as [e (He1 & He2 & He3)].
     exists e. cbn. rewrite Hw, Ht. repeat split; auto.
+  - dm Hs; inversion Hs; subst n' o; cbn in Hin; contradiction.
 Qed.
 
 (* ---- the three clauses together, along any schedule after NewTerm(T) answered OK *)
@@ -874,7 +912,7 @@ Definition stream_term (n : node) (sid : nat) : option Z :=
   match find_stream n sid with Some s => Some (s_term s) | None => None end.
 
 Theorem no_old_term_progress : forall T n0 l a n' o,
-  inv n0 -> T <= n_term n0 -> Forall wf_action l -> wf_action a ->
+  inv n0 -> T <= n_term n0 -> Forall wf_action l -> Forall keeps_shard l -> wf_action a ->
   let n := state_after cfg_fixed n0 l in
   step cfg_fixed n a = (n', o) ->
   (* acknowledgements *)
@@ -886,9 +924,9 @@ Theorem no_old_term_progress : forall T n0 l a n' o,
   (* completed client writes *)
   (forall off, In (off, true) (o_writes o) -> exists e, In e (n_wal n') /\ e_off e = off /\ T <= e_term e).
 Proof.
-  intros T n0 l a n' o H HT Hwf Hwa n Hs.
+  intros T n0 l a n' o H HT Hwf Hks Hwa n Hs.
   assert (Hi : inv n) by (apply reachable_inv; assumption).
-  assert (Hge : T <= n_term n) by (pose proof (run_term_mono l n0 H Hwf); subst n; lia).
+  assert (Hge : T <= n_term n) by (pose proof (run_term_mono l n0 H Hwf Hks); subst n; lia).
   split; [|split].
   - intros sid off t Hin Hst Ht. destruct (step_acks _ _ _ _ _ _ Hi Hs Hin) as [s (Hf & Hs1 & Hs2)].
     unfold stream_term in Hst. rewrite Hf in Hst. inversion Hst; subst t. rewrite (Hs1 Ht). lia.
@@ -928,6 +966,7 @@ Proof.
     unfold leader_write in Hs. dm Hs; inversion Hs; subst n' o; cbn in Hin; contradiction.
   - destruct (n_role n); try (inversion Hs; subst; contradiction).
     unfold leader_sync_done in Hs. destruct (complete_writes _ _ _). inversion Hs; subst n' o; cbn in Hin; contradiction.
+  - dm Hs; inversion Hs; subst n' o; cbn in Hin; contradiction.
 Qed.
 
 (* Truncate is only legal in status FENCED: a follower controller in any other status refuses it and nothing changes
